@@ -3,6 +3,7 @@ package transaction
 import (
 	"fmt"
 	"reflect"
+	"strings"
 	"time"
 
 	"github.com/go-logr/logr"
@@ -259,6 +260,9 @@ func (t *Transaction) checkIndexes() error {
 	tables := t.Cache.Tables()
 	for _, table := range tables {
 		tc := t.Cache.Table(table)
+		if err := t.checkTransactionRowsIndexes(table, tc); err != nil {
+			return err
+		}
 		for _, row := range tc.RowsShallow() {
 			err := tc.IndexExists(row)
 			if err != nil {
@@ -285,6 +289,48 @@ func (t *Transaction) checkIndexes() error {
 				}
 				return err
 			}
+		}
+	}
+	return nil
+}
+
+// checkTransactionRowsIndexes checks that no two rows of a table operated with
+// in the transaction have the same values for a schema index. The rows are
+// compared with each other directly: while operations are applied without
+// checking indexes several rows can transiently share an index value, and the
+// index of the transaction cache only remembers the last of them.
+func (t *Transaction) checkTransactionRowsIndexes(table string, tc *cache.RowCache) error {
+	tableSchema := t.Model.Schema.Table(table)
+	if tableSchema == nil || len(tableSchema.Indexes) == 0 {
+		return nil
+	}
+	rows := tc.RowsShallow()
+	if len(rows) < 2 {
+		return nil
+	}
+	for _, index := range tableSchema.Indexes {
+		seen := make(map[string]string, len(rows))
+		for uuid, row := range rows {
+			info, err := t.Model.NewModelInfo(row)
+			if err != nil {
+				return err
+			}
+			values := make([]interface{}, 0, len(index))
+			for _, column := range index {
+				value, err := info.FieldByColumn(column)
+				if err != nil {
+					return err
+				}
+				if v := reflect.ValueOf(value); v.Kind() == reflect.Ptr && !v.IsNil() {
+					value = v.Elem().Interface()
+				}
+				values = append(values, value)
+			}
+			key := fmt.Sprintf("%#v", values)
+			if other, found := seen[key]; found {
+				return cache.NewIndexExistsError(table, values, strings.Join(index, ","), uuid, []string{other})
+			}
+			seen[key] = uuid
 		}
 	}
 	return nil
